@@ -4,14 +4,15 @@ from common import *
 
 
 def run(prop, wd, thorough):
-    cfg = os.path.join(wd, 'LifecycleGen.cfg')
-    consts = (3, 3, 4) if thorough else (3, 2, 3)
-    open(cfg, 'w').write('CONSTANTS MaxHandles = %d\n          MaxRestarts = %d\n          MaxCreated = %d\nINIT GInit\nNEXT GNext\nVIEW GView\n'
-                         'INVARIANTS ActiveFormulaCorrect WorkerStreamDiscipline SnapshotNeverAhead\nCHECK_DEADLOCK FALSE\n' % consts)
-    rc, out = tlc('LifecycleGen.tla', cfg=cfg, workers=1, timeout=3000, xmx='4g')
+    # LifecycleItems = Lifecycle + items per stream, pushes through any live handle, update_config, drop of the matcher
+    cfg = os.path.join(wd, 'LifecycleItemsGen.cfg')
+    consts = (3, 2, 3, 1) if thorough else (2, 2, 2, 1)
+    open(cfg, 'w').write('CONSTANTS MaxHandles = %d\n          MaxRestarts = %d\n          MaxCreated = %d\n          MaxPush = %d\nINIT GInit\nNEXT GNext\nVIEW GView\n'
+                         'INVARIANTS ActiveFormulaCorrect WorkerStreamDiscipline SnapshotNeverAhead MatcherHoldsFew OldStreamsLiveByHandlesOnly\nCHECK_DEADLOCK FALSE\n' % consts)
+    rc, out = tlc('LifecycleItemsGen.tla', cfg=cfg, workers=1, timeout=3000, xmx='4g')
     st = tlc_stats(out)
     if tlc_failed(rc, out) or not st['completed']:
-        die_tool('LifecycleGen: ' + out[-2000:])
+        die_tool('LifecycleItemsGen: ' + out[-2000:])
     model_violated = 'is violated' in out
     scripts = [j for j in json_lines(out) if j.get('ev') == 'SCRIPT']
     spath = os.path.join(wd, 'scripts.ndjson')
@@ -20,18 +21,20 @@ def run(prop, wd, thorough):
             f.write(json.dumps({'ops': s['ops']}) + '\n')
     rpath = os.path.join(wd, 'lifecycle.ndjson')
     p = nvh(['lifecycle-replay', '--scripts', spath, '--out', rpath], timeout=7200)
-    rc2, out2 = tlc('LifecycleTrace.tla', env={'TRACE': rpath}, workers=1, timeout=3000, xmx='4g')
+    rc2, out2 = tlc('LifecycleItemsTrace.tla', env={'TRACE': rpath}, workers=1, timeout=3000, xmx='4g')
     st2 = tlc_stats(out2)
     if tlc_failed(rc2, out2) or not st2['completed']:
-        die_tool('LifecycleTrace: ' + out2[-2000:])
+        die_tool('LifecycleItemsTrace: ' + out2[-2000:])
     viol, done = [], None
     recs = None
     for j in json_lines(out2):
         if j.get('ev') == 'DONE':
             done = j['stat']
         elif j.get('ev') == 'JUDGE':
-            want = 'active_injectors_differs_from_model' if prop == 'C20' else 'items_not_dropped_exactly_once_when_unreachable'
-            if want in j['viol']:
+            want = {'active_injectors_differs_from_model'} if prop == 'C20' else {
+                'items_not_dropped_exactly_once_when_unreachable', 'item_destroyed_while_its_stream_is_reachable', 'item_destroyed_twice',
+                'items_of_unreachable_stream_not_destroyed'}
+            if want & set(j['viol']):
                 if recs is None:
                     recs = [json.loads(l) for l in open(rpath)]
                 r = recs[j['id'] - 1]
@@ -41,7 +44,7 @@ def run(prop, wd, thorough):
                                  ' '.join('%s(%s)' % (s['op'], s['arg']) for s in r['steps'][:max(j['step'], 1)]), j['observed'], j['expected'])))
     if done is None or done['scripts'] != len(scripts):
         # a step the model cannot take: the model does not describe the harness' script any more
-        print('MODEL-DRIFT: LifecycleTrace consumed %s of %d scripts' % (done and done['scripts'], len(scripts)))
+        print('MODEL-DRIFT: LifecycleItemsTrace consumed %s of %d scripts' % (done and done['scripts'], len(scripts)))
     # the same discipline for unbounded handles / restarts / ticks: TLAPS
     import subprocess, shutil, re
     pdir = os.path.join(wd, 'lifecycle-proof')
